@@ -28,7 +28,12 @@ import z3
 from vc import stagea as A
 
 
-def build(size, pos_in, pos_out, use_fmmu, in_sz=8, out_sz=8):
+def build(size, pos_in, pos_out, use_fmmu, in_sz=None, out_sz=None):
+    # the terminal's process data areas hold the variable (the property's
+    # frame: a variable lies inside the process data its terminal declares)
+    width = 1 if isinstance(size, int) else A.FMT_SIZE[size]
+    in_sz = max(8, pos_in + width) if in_sz is None else in_sz
+    out_sz = max(8, pos_out + width) if out_sz is None else out_sz
     import ebpfcat.arraymap as am
     saved = am.create_map, am.mmap
     am.create_map = lambda *a, **k: 77
